@@ -17,6 +17,24 @@ CLAIMED = {
   text="Every index of each generated list is compared with compute_shuffled_index transcribed from the spec; inverses are checked in both compositions and as whole-list operations; sizes 0..400 (quick) / 0..1100 (thorough) are enumerated completely for fixed seeds and round counts, all round counts 0..255 at four sizes, plus random triples with pivot-at-the-edge seeds found by search. Seeds are sampled (2^256), so this is exploration.",
   note="Trusted: crypto/sha256 and the 20-line spec transcription (asserted bijective on every case). Sizes above 20000 and all 2^256 seeds are out of reach.",
   ref="§3 C06"),
+ "C01": dict(
+  technique="model-based property testing (rapid): generated (config, genesis, chain) recipes; every block is built valid-by-construction by an independent from-spec reference implementation (refspec+refssz) and executed in lock-step on zrnt; full state bytes and roots compared after every block; failures shrink to a replayable recipe",
+  level="exploration",
+  text="Differential testing of common.StateTransition against a cache-free transliteration of the phase0..deneb spec over generated chains: custom presets (4/8-slot epochs, tiny limits, fast churn/sync/eth1 periods) plus the official minimal and mainnet presets, fork schedules with equal/adjacent/never-activated forks, <=130 validators, blocks mixing attestations (delayed, duplicate, wrong head/target), proposer/attester slashings (double and surround, partial intersections), deposits (new/top-up/bad PoP/invalid key) driven by eth1-vote majorities, exits behind queues, BLS changes, sync aggregates, payloads with withdrawals and blob commitments. SSZ is injective, so byte equality is field-for-field equality. Exploration: chains are sampled.",
+  note="Trusted base: refspec/refssz (harness transcription of consensus-specs v1.5.0-beta.2) and the BLS library shared by both sides. Both-wrong-identically is not detected. Fork epochs >= 1, Electra never activated, validator sets <= 130, chains <= ~50 slots (mainnet preset <= ~110).",
+  ref="§3 C01"),
+ "C02": dict(
+  technique="model-based property testing (rapid) with a directed class tour: every ProcessSlots advance of generated chains compared byte-for-byte with refspec.process_slots, plus the reference-free metamorphic relation ProcessSlots(a->c) == ProcessSlots(a->b->c)",
+  level="exploration",
+  text="History-heavy generated chains (skips up to 3 epochs, participation profiles from full to none, slashing/exit bursts) and four directed templates (mass ejection through a multi-epoch exit queue, exit burst then ejection, activation burst at just-above-2/3 participation, leak until balances clip at zero) whose free details are still drawn; after every slot advance the library state must equal the reference state in bytes and root. Non-trivial advances are classified by the set of sub-transition effects seen in the reference (justification, finality, leak, scores, activation, ejection, queue spill, slashing window, hysteresis, historical append, eth1 reset, sync rotation, each upgrade). Found and repaired three epoch-processing defects; one recorded as known (empty active set).",
+  note="Trusted base as C01. Known finding F-C02-05 (ProcessSlots errors when no validator is active) is excluded by construction: a case ends, counted, when the reference state's active set becomes empty. Chains <= ~14 epochs on custom presets.",
+  ref="§3 C02"),
+ "C20": dict(
+  technique="model-based stateful property testing (rapid) with shrinking: generated histories of add/query/prune/reset calls against each pool in eth2/pool, judged after every action by an independent set-based model (checks/c20/poolmodel) derived from the package's doc comments; panics recovered; shrunk failures become replay files",
+  level="exploration",
+  text="Randomised search over histories of <=60 actions per pool (quick ~53k, thorough ~1.17M histories) over a small universe built to collide: 3 epochs x 2 slots x 2 committees of 3-9 members, 3 competing data per committee, duplicates/subsets/supersets/overlaps/conflicts/length mismatches, every Search filter combination, prunes around the inclusion boundary, sync-pool resets of every kind incl. the uint64 ends and use before the first Reset. The full unfiltered query (for the sync pool: the six buffers) is judged after every action, so a wrong intermediate state cannot hide. 25 seeded mutants are each caught in the quick tier; six genuine defects were found and repaired. Histories are sampled, not exhausted.",
+  note="Trusted: the ~500-line poolmodel and the doc readings written in it (where a comment is ambiguous the reading under which the code is right on two-step histories; acceptance is demanded only where no documented refusal reason applies). Signatures are tagged byte strings (pools do not verify or aggregate). The sync-committee pool has no query, so its contents are read from its unexported fields by name via reflect+unsafe (read-only; no file added to /repo; a renamed field is a harness failure, not a verdict). Single-threaded: locking is C17.",
+  ref="§3 C20"),
 }
 PENDING_REASON = "check not built yet in this session (designed in DESIGN.md §3; will be claimed when its machinery is committed)"
 
